@@ -15,9 +15,10 @@
 (*                      other moment changes nothing that is modelled:     *)
 (*                      everything is in the database)                     *)
 (*       end            the open shuttermint block is closed (EndBlock,    *)
-(*                      Commit); only blocks with at least one accepted    *)
-(*                      transaction are closed when Lag = 0 (an empty or   *)
-(*                      all-error block changes nothing a keyper can see)  *)
+(*                      Commit); when Lag = 0 only blocks in which a       *)
+(*                      transaction changed the application state are      *)
+(*                      closed (any other block changes nothing a keyper   *)
+(*                      can see)                                           *)
 (* hist is hidden by the VIEW; EmitInv prints the first history reaching   *)
 (* each distinct (state, ghost, last op).  The exploration is bounded by   *)
 (* guards on the STATE (MaxMC, MaxSets, MaxH), never by Len(hist).         *)
@@ -67,7 +68,7 @@ Eff(o) ==
       [] o.op = "iter" ->
            LET r == Iter(kp[o.a], o.a, mc, app, chainEv, gsets, o.budget, o.crash) IN
            [en |-> TRUE, mc |-> mc, gsets |-> gsets, app |-> r.app, chainEv |-> chainEv,
-            openEv |-> openEv \o r.evs, dirty |-> dirty \/ r.ok > 0, kp |-> [kp EXCEPT ![o.a] = r.kp],
+            openEv |-> openEv \o r.evs, dirty |-> dirty \/ r.app # app, kp |-> [kp EXCEPT ![o.a] = r.kp],
             ln |-> r.ln, steps |-> r.steps]
       [] o.op = "end" ->
            LET c == CloseBlock(app) IN
@@ -131,8 +132,9 @@ SpecLive == Init /\ [][LNext]_vars /\ Fair
 
 AcceptedSet(s) == \E i \in DOMAIN app.configs : Bare(app.configs[i]) = s
 StartedSet(s)  == \E i \in DOMAIN app.configs : Bare(app.configs[i]) = s /\ app.configs[i].started
-PrevOf(s) == LET i == CHOOSE j \in DOMAIN app.configs : Bare(app.configs[j]) = s
-             IN app.configs[IF i > 1 THEN i - 1 ELSE 1]
+PrevOf(s) == IF ~AcceptedSet(s) THEN app.configs[1]
+             ELSE LET i == CHOOSE j \in DOMAIN app.configs : Bare(app.configs[j]) = s
+                  IN app.configs[IF i > 1 THEN i - 1 ELSE 1]
 
 G4_AcceptPremise(s) ==
     /\ InSeq(gsets, s)
